@@ -287,6 +287,40 @@ func genPath(t *rapid.T, ms []mapping) string {
 	return filepath.Join(cwdDir, "..", "vlib", file)
 }
 
+// cyclic reports whether adding m would let a chain of replacements lead back under a prefix
+// that is itself mapped (e.g. /a -> /b together with /b -> /a).
+func cyclic(ms []mapping, m mapping) bool {
+	table := map[string]string{}
+	for _, x := range ms {
+		table[x.Prefix] = x.Repl
+	}
+	table[m.Prefix] = m.Repl
+	for start := range table {
+		cur, steps := table[start], 0
+		for steps < len(table)+1 {
+			next, ok := "", false
+			for p, r := range table {
+				if under(cur, p) {
+					next, ok = r+cur[len(strings.TrimRight(p, "/")):], true
+					break
+				}
+			}
+			if !ok {
+				break
+			}
+			if under(next, start) {
+				return true
+			}
+			cur = next
+			steps++
+		}
+		if steps >= len(table)+1 {
+			return true
+		}
+	}
+	return false
+}
+
 var rePatterns = []string{`/Volumes/[^/]+/`, `^/srv/[a-z]+/`, `/node_modules/`, `[0-9]+`, `^/opt/(x|y)/`}
 
 func TestSafety(t *testing.T) {
@@ -317,6 +351,9 @@ func TestSafety(t *testing.T) {
 				m.Repl = genRepl(t, ms)
 				if under(m.Repl, m.Prefix) {
 					m.Repl = "@self" // a mapping onto (something under) its own prefix protects nothing
+				}
+				if cyclic(ms, m) {
+					continue // mappings that lead back to a protected prefix cannot be honoured by any implementation
 				}
 				dup := false
 				for j := range ms {
